@@ -17,7 +17,8 @@
   Part 2 (dynamic reordering ENABLED in the history) is at the end: `UOp3` adds `configure`.
 -/
 import DDProofs.Reach2
--- import DDProofs.Reach3
+import DDProofs.Reach3
+import DDProps.C09
 namespace DD
 
 local notation "⟪" ops "⟫" => run2 ops St.init
@@ -498,5 +499,281 @@ example (ops : List UOp) (hg : OpsGuarded ops St.init) :
     Good2 (run ops St.init).m (run ops St.init).ext := by
   rw [← run2_base]
   exact reachable2_inv _ ((ops2Guarded_base ops St.init).mpr hg)
+
+/-! ## Part 2 — dynamic reordering switched ON in the history
+
+`UOp3` (DDProofs.Reach3) = `UOp2` + `configure(reordering=b)`.  `Good3` is `Good2` without the
+clause `_last_len = None`.  `⟪ops⟫₃` is the state after `ops` from the empty manager.  The guard
+adds one obligation: while reordering is enabled, a decorated operation is issued with at least
+two declared variables. -/
+
+local notation "⟪" ops "⟫₃" => run3 ops St.init
+
+/-- every state of a history with `configure` in it is good; and the histories of Part 1 are the
+histories that never call `configure` -/
+theorem C17_every_prefix_good3 (pre post : List UOp3) (hg : Ops3Guarded (pre ++ post) St.init) :
+    Good3 ⟪pre⟫₃.m ⟪pre⟫₃.ext :=
+  reachable3_inv pre ((ops3Guarded_append pre post St.init).mp hg).1
+
+/-- C09 as a statement about histories: after ANY history — reordering enabled or not at that
+point, whatever automatic and explicit reorderings, collections and rejected calls happened —
+with two variables declared the manager is in the state `DynInv` from which every C09 theorem
+starts; in particular (generic form) EVERY decorated body whose outcome is "documented result by
+name, or aborted having only added nodes" is transparent there, for operands the user holds -/
+theorem C09_every_history (ops : List UOp3) (hg : Ops3Guarded ops St.init)
+    (h2 : 2 ≤ ⟪ops⟫₃.m.nvars) :
+    DynInv ⟪ops⟫₃.ext ⟪ops⟫₃.m ∧
+    ∀ {α : Type} (f : M α) (opnds : List Int) (Pre : Tbl → Prop) (Doc : Tbl → α → Tbl → Prop),
+      (∀ m0 : Mgr, Inv m0 → m0.ctx = true → OrderOK m0.tbl → Pre m0.tbl →
+        (∀ u ∈ opnds, m0.tbl.Mem u) → Outcome m0 (fun r m1 => Doc m0.tbl r m1.tbl) (f m0)) →
+      (∀ t t', Bridge opnds t t' → Pre t → Pre t') →
+      (∀ t t' r t'', Bridge opnds t t' → Pre t → Doc t' r t'' → Doc t r t'') →
+      (∀ u ∈ opnds, HeldX ⟪ops⟫₃.ext u) → Pre ⟪ops⟫₃.m.tbl →
+      ∃ r m', tryToReorder f ⟪ops⟫₃.m = (.ok r, m') ∧ DynPostG ⟪ops⟫₃.ext Doc ⟪ops⟫₃.m r m' ∧
+        Good3 m' ⟪ops⟫₃.ext := by
+  have hG := reachable3_inv ops hg
+  have hD := hG.dynInv h2
+  refine ⟨hD, fun f opnds Pre Doc hbody hpre hdoc hops hpre0 => ?_⟩
+  obtain ⟨r, m', he, hp⟩ :=
+    C09_decorator_transparent ⟪ops⟫₃.ext f opnds Pre Doc hbody hpre hdoc ⟪ops⟫₃.m hD hops hpre0
+  exact ⟨r, m', he, hp, hp.inv.good3 (hp.roots.trans hG.roots)⟩
+
+/-- C09 / C01: `ite` after ANY history, reordering possibly enabled, the request firing at
+whichever node creation: for operands the user holds (or constants) the call returns normally;
+the result denotes, BY NAME, the if-then-else of the operands as they were; the state is good
+for the same ledger; reordering is enabled iff it was; every held reference keeps its function -/
+theorem C01_ite_every_history_dyn (ops : List UOp3) (hg : Ops3Guarded ops St.init)
+    (h2 : 2 ≤ ⟪ops⟫₃.m.nvars) (g u v : Int) (hgh : HeldX ⟪ops⟫₃.ext g) (hu : HeldX ⟪ops⟫₃.ext u)
+    (hv : HeldX ⟪ops⟫₃.ext v) :
+    ∃ r m', runOp3 (.op (.base (.ite g u v))) ⟪ops⟫₃.m = (.ok (.ref r), m') ∧
+      Good3 m' ⟪ops⟫₃.ext ∧ m'.lastLen.isSome = ⟪ops⟫₃.m.lastLen.isSome ∧ m'.tbl.Mem r ∧
+      (∀ σ, denN m'.tbl r σ =
+        if denN ⟪ops⟫₃.m.tbl g σ then denN ⟪ops⟫₃.m.tbl u σ else denN ⟪ops⟫₃.m.tbl v σ) ∧
+      (∀ w, HeldX ⟪ops⟫₃.ext w → m'.tbl.Mem w ∧ ∀ σ, denN m'.tbl w σ = denN ⟪ops⟫₃.m.tbl w σ) := by
+  have hG := reachable3_inv ops hg
+  obtain ⟨r, m', he, hp⟩ := C09_ite_transparent ⟪ops⟫₃.ext ⟪ops⟫₃.m (hG.dynInv h2) g u v hgh hu hv
+  refine ⟨r, m', ?_, hp.inv.good3 (hp.roots.trans hG.roots), hp.enabled, hp.doc.1, hp.doc.2, hp.held⟩
+  simp only [runOp3, runOp2, runOp, mapRes, he]
+
+/-- C09 / C01: `apply` of every spelling of a binary propositional connective after ANY history,
+reordering possibly enabled -/
+theorem C01_apply_every_history_dyn (ops : List UOp3) (hg : Ops3Guarded ops St.init)
+    (h2 : 2 ≤ ⟪ops⟫₃.m.nvars)
+    (op : String) (c : Conn) (hc : docConn op = some c) (ha : c.arity = 2)
+    (hq1 : c ≠ .forall_) (hq2 : c ≠ .exists_) (hall : Gen.allOps.contains op = true)
+    (u v : Int) (hu : HeldX ⟪ops⟫₃.ext u) (hv : HeldX ⟪ops⟫₃.ext v) :
+    ∃ r m', runOp3 (.op (.base (.apply op u (some v) none))) ⟪ops⟫₃.m = (.ok (.ref r), m') ∧
+      Good3 m' ⟪ops⟫₃.ext ∧ m'.lastLen.isSome = ⟪ops⟫₃.m.lastLen.isSome ∧ m'.tbl.Mem r ∧
+      (∀ σ, denN m'.tbl r σ = c.eval (denN ⟪ops⟫₃.m.tbl u σ) (denN ⟪ops⟫₃.m.tbl v σ) false) ∧
+      (∀ w, HeldX ⟪ops⟫₃.ext w → m'.tbl.Mem w ∧ ∀ σ, denN m'.tbl w σ = denN ⟪ops⟫₃.m.tbl w σ) := by
+  have hG := reachable3_inv ops hg
+  obtain ⟨r, m', he, hp⟩ := C09_apply_binary_transparent ⟪ops⟫₃.ext ⟪ops⟫₃.m (hG.dynInv h2) op c hc ha
+    hq1 hq2 hall u v hu hv
+  refine ⟨r, m', ?_, hp.inv.good3 (hp.roots.trans hG.roots), hp.enabled, hp.doc.1, hp.doc.2, hp.held⟩
+  simp only [runOp3, runOp2, runOp, mapRes, he]
+
+/-- C02 with reordering switched on and off in the history: two nodes are equal exactly when they
+denote the same function of the variable names -/
+theorem C02_canonical_every_history3 (ops : List UOp3) (hg : Ops3Guarded ops St.init) (u v : Int)
+    (hu : ⟪ops⟫₃.m.tbl.Mem u) (hv : ⟪ops⟫₃.m.tbl.Mem v) :
+    (∀ σ, denN ⟪ops⟫₃.m.tbl u σ = denN ⟪ops⟫₃.m.tbl v σ) ↔ u = v :=
+  canonical_by_name3 (reachable3_inv ops hg) u v hu hv
+
+/-- C06 / C07 with reordering switched on and off in the history: the counts are exact, and the
+next call — a decorated operation that sifts the manager, an explicit reordering, a collection —
+keeps every reference the user holds: a node under the same number, the same function by name,
+counter = stored edges + the user's references; the switch is changed by `configure` only and
+the internal signal never reaches the user -/
+theorem C06_held_every_history3 (ops : List UOp3) (hg : Ops3Guarded ops St.init) (op : UOp3)
+    (hop : OpGuard3 ⟪ops⟫₃.m ⟪ops⟫₃.ext op) :
+    RefExact ⟪ops⟫₃.m ⟪ops⟫₃.ext ∧ Good3 (step3 op ⟪ops⟫₃).m (step3 op ⟪ops⟫₃).ext ∧
+    (runOp3 op ⟪ops⟫₃.m).1 ≠ .error .needsReordering ∧
+    (step3 op ⟪ops⟫₃).m.lastLen.isSome = op.switchAfter ⟪ops⟫₃.m.lastLen.isSome ∧
+    ∀ u : Int, 0 < ⟪ops⟫₃.ext u.natAbs →
+      ⟪ops⟫₃.m.tbl.Mem u ∧ (step3 op ⟪ops⟫₃).m.tbl.Mem u ∧
+      (∀ σ, denN (step3 op ⟪ops⟫₃).m.tbl u σ = denN ⟪ops⟫₃.m.tbl u σ) ∧
+      (step3 op ⟪ops⟫₃).m.ref[u.natAbs]? =
+        some (indeg (step3 op ⟪ops⟫₃).m.tbl u.natAbs + (step3 op ⟪ops⟫₃).ext u.natAbs +
+          (if u.natAbs = 1 then 1 else 0)) :=
+  have hG := reachable3_inv ops hg
+  ⟨hG.exact, step3_inv _ _ op hG hop, step3_noSignal _ _ op hG hop, step3_switch _ _ op hG hop,
+   fun u hu => step3_held _ _ op hG hop u hu⟩
+
+/-- C17 with reordering switched on and off in the history: after ANY history a call that raises
+— reordering enabled or not, in the first attempt or in the RETRY after a sifting — never raises
+the internal signal and leaves a good state: the ledger untouched, reordering enabled iff it was,
+every held reference a node with the same function by name; hence every theorem applies to the
+next call, whatever it is; and with two variables declared the next `ite` on held operands
+returns the if-then-else of the operands AS THEY WERE BEFORE the rejected call, by name -/
+theorem C17_error_then_normal_dyn_history (ops : List UOp3) (hg : Ops3Guarded ops St.init) (op : UOp3)
+    (hop : OpGuard3 ⟪ops⟫₃.m ⟪ops⟫₃.ext op) (e : Err) (hrej : (runOp3 op ⟪ops⟫₃.m).1 = .error e) :
+    e ≠ .needsReordering ∧
+    Good3 (step3 op ⟪ops⟫₃).m (step3 op ⟪ops⟫₃).ext ∧
+    (step3 op ⟪ops⟫₃).ext = ⟪ops⟫₃.ext ∧
+    (step3 op ⟪ops⟫₃).m.lastLen.isSome = ⟪ops⟫₃.m.lastLen.isSome ∧
+    (∀ w : Int, HeldX ⟪ops⟫₃.ext w → (step3 op ⟪ops⟫₃).m.tbl.Mem w ∧
+      ∀ σ, denN (step3 op ⟪ops⟫₃).m.tbl w σ = denN ⟪ops⟫₃.m.tbl w σ) ∧
+    (∀ op2 : UOp3, OpGuard3 (step3 op ⟪ops⟫₃).m (step3 op ⟪ops⟫₃).ext op2 →
+      Good3 (step3 op2 (step3 op ⟪ops⟫₃)).m (step3 op2 (step3 op ⟪ops⟫₃)).ext) ∧
+    (2 ≤ (step3 op ⟪ops⟫₃).m.nvars → ∀ g u v : Int, HeldX ⟪ops⟫₃.ext g → HeldX ⟪ops⟫₃.ext u →
+      HeldX ⟪ops⟫₃.ext v →
+      ∃ r m'', runOp3 (.op (.base (.ite g u v))) (step3 op ⟪ops⟫₃).m = (.ok (.ref r), m'') ∧
+        Good3 m'' ⟪ops⟫₃.ext ∧ m''.tbl.Mem r ∧
+        ∀ σ, denN m''.tbl r σ =
+          if denN ⟪ops⟫₃.m.tbl g σ then denN ⟪ops⟫₃.m.tbl u σ else denN ⟪ops⟫₃.m.tbl v σ) := by
+  have hG := reachable3_inv ops hg
+  have hS : Good3 (step3 op ⟪ops⟫₃).m (step3 op ⟪ops⟫₃).ext := step3_inv _ _ op hG hop
+  have hl : (step3 op ⟪ops⟫₃).ext = ⟪ops⟫₃.ext := rejected3_ledger _ _ op hG hop e hrej
+  have hH : Held2 ⟪ops⟫₃.ext ⟪ops⟫₃.m (step3 op ⟪ops⟫₃).m := step3_heldSame _ _ op hG hop
+  have hsw : (step3 op ⟪ops⟫₃).m.lastLen.isSome = ⟪ops⟫₃.m.lastLen.isSome := by
+    cases op with
+    | op o => exact step3_switch _ _ (.op o) hG hop
+    | configure b =>
+      exfalso
+      have h1 := (configure_step3 ⟪ops⟫₃.m ⟪ops⟫₃.ext hG b).2.2.2.2
+      have : (mapRes (fun _ => Res.unit) (configure (some b) ⟪ops⟫₃.m)).1 = .error e := hrej
+      simp only [mapRes, h1] at this
+      cases this
+  refine ⟨fun he => step3_noSignal _ _ op hG hop (by rw [hrej, he]), hS, hl, hsw,
+    fun w hw => hH.heldX hw, fun op2 h2 => step3_inv _ _ op2 hS h2, ?_⟩
+  intro h2 g u v hgh hu hv
+  rw [hl] at hS
+  obtain ⟨r, m'', he, hp⟩ :=
+    C09_ite_transparent ⟪ops⟫₃.ext (step3 op ⟪ops⟫₃).m (hS.dynInv h2) g u v hgh hu hv
+  refine ⟨r, m'', ?_, hp.inv.good3 (hp.roots.trans hS.roots), hp.doc.1, fun σ => ?_⟩
+  · simp only [runOp3, runOp2, runOp, mapRes, he]
+  · rw [hp.doc.2 σ, (hH.heldX hgh).2 σ, (hH.heldX hu).2 σ, (hH.heldX hv).2 σ]
+
+/-! ### non-vacuity of Part 2 -/
+
+def resCode3 : Except Err Res → Int := resCode2
+
+/-- a history with `configure`: explicit reorderings and a rejected call while reordering is
+enabled, the switch turned off and on again -/
+def exHistoryD : List UOp3 :=
+  [ .op (.base (.declare "a" none)), .op (.base (.declare "b" none)), .op (.base (.declare "c" none)),
+    .configure true,                                   -- reordering enabled from here on
+    .op (.base (.var "a")),                            -- node 2
+    .op (.base (.var "b")),                            -- node 3
+    .op (.base (.apply "and" 2 (some 3) none)),        -- node 4 = a ∧ b
+    .op (.base (.incref 4)),
+    .op (.swap [] (.name "a") (.name "b")),            -- explicit swap, reordering enabled
+    .op (.base (.ite 7 1 (-1))),                       -- REJECTED (unknown node), reordering enabled
+    .op (.sift []),                                    -- explicit sifting, reordering enabled
+    .configure false,
+    .op (.base (.var "c")),                            -- node 3 (re-used), reordering not enabled
+    .configure true,
+    .op (.base (.apply "or" 4 (some 2) none)) ]        -- (a ∧ b) ∨ a = a : node 2
+
+theorem exHistoryD_guarded : Ops3Guarded exHistoryD St.init := by decide +kernel
+
+theorem exHistoryD_results : (results3 exHistoryD St.init).map resCode3 =
+    [1000, 1001, 1002, 0, 2, 3, 4, 0, 0, -1000, 0, 0, 3, 0, 2] ∧
+    ⟪exHistoryD⟫₃.m.lastLen.isSome = true ∧ ⟪exHistoryD.take 12⟫₃.m.lastLen.isSome = false ∧
+    ⟪exHistoryD⟫₃.ext 4 = 1 ∧ 2 ≤ ⟪exHistoryD⟫₃.m.nvars := by decide +kernel
+
+example : Good3 ⟪exHistoryD⟫₃.m ⟪exHistoryD⟫₃.ext := reachable3_inv exHistoryD exHistoryD_guarded
+
+/-- C09 on the example: after the history reordering is enabled and node 4 is held -/
+example : ∃ r m', runOp3 (.op (.base (.ite 4 4 (-1)))) ⟪exHistoryD⟫₃.m = (.ok (.ref r), m') ∧
+    Good3 m' ⟪exHistoryD⟫₃.ext ∧ m'.lastLen.isSome = ⟪exHistoryD⟫₃.m.lastLen.isSome ∧ m'.tbl.Mem r ∧
+    (∀ σ, denN m'.tbl r σ =
+      if denN ⟪exHistoryD⟫₃.m.tbl 4 σ then denN ⟪exHistoryD⟫₃.m.tbl 4 σ
+      else denN ⟪exHistoryD⟫₃.m.tbl (-1) σ) ∧
+    (∀ w, HeldX ⟪exHistoryD⟫₃.ext w →
+      m'.tbl.Mem w ∧ ∀ σ, denN m'.tbl w σ = denN ⟪exHistoryD⟫₃.m.tbl w σ) :=
+  C01_ite_every_history_dyn exHistoryD exHistoryD_guarded exHistoryD_results.2.2.2.2 4 4 (-1)
+    (Or.inr (by rw [show ((4 : Int).natAbs) = 4 from rfl, exHistoryD_results.2.2.2.1]; decide))
+    (Or.inr (by rw [show ((4 : Int).natAbs) = 4 from rfl, exHistoryD_results.2.2.2.1]; decide))
+    (Or.inl rfl)
+
+/-- C17 on the example: the tenth call (`ite` on an unknown node) is rejected while reordering is
+enabled, in the state reached by the first nine -/
+theorem exHistoryD_rejected :
+    (runOp3 (.op (.base (.ite 7 1 (-1)))) ⟪exHistoryD.take 9⟫₃.m).1 = .error .key ∧
+    ⟪exHistoryD.take 9⟫₃.m.lastLen.isSome = true := by
+  have h : ∀ r : Except Err Res, (match r with | .error .key => true | _ => false) = true →
+      r = .error .key := by
+    intro r
+    cases r with
+    | ok r => intro h; cases h
+    | error e => cases e <;> intro h <;> first | rfl | cases h
+  exact ⟨h _ (by decide +kernel), by decide +kernel⟩
+
+example : Good3 (step3 (.op (.base (.ite 7 1 (-1)))) ⟪exHistoryD.take 9⟫₃).m
+    (step3 (.op (.base (.ite 7 1 (-1)))) ⟪exHistoryD.take 9⟫₃).ext :=
+  (C17_error_then_normal_dyn_history (exHistoryD.take 9) (by decide +kernel) _ (by decide +kernel)
+    .key exHistoryD_rejected.1).2.1
+
+/-! #### a history in which dynamic reordering FIRES (naturally: `len ≥ 2 * _last_len`)
+
+Seven pairs `x_i`, `y_i`, all `x` above all `y` — the worst order for `⋁ x_i ∧ y_i`.  Reordering
+is enabled before the first node is made (`_last_len = 100`); every operand is held.  Before the
+last call the manager has 193 nodes; during the last `or` (= `ite(192, 1, 193)`) the 200th node
+is requested: the attempt is aborted (`exBig_fires`, evaluated by the kernel), the manager is
+sifted and the connective computed again.  Evaluating the sifting itself is too much for the
+kernel's evaluator (minutes); `#eval` (compiled evaluator) gives, for
+`(results3 exBig St.init).map resCode3`, `⟪exBig⟫₃.m.len`, `⟪exBig⟫₃.m.lastLen`,
+`⟪exBig⟫₃.m.tbl.vars.toList`:
+
+    [1000, …, 1013, 0, 2, 0, 3, 0, …, 15, 0,                       -- declare ×14, configure, var/incref ×14
+     16, 0, 16, 0, 17, 0, 20, 0, 21, 0, 30, 0, 31, 0, 52, 0, 53, 0, 98, 0, 99, 0, 192, 0, 193, 0, 62]
+    66                          -- nodes after the automatic sifting (193 before the call)
+    some 104                    -- `_last_len` re-armed: 2 * 52
+    [("x0", 2), ("x1", 4), ("x2", 6), ("x3", 7), ("x4", 9), ("x5", 11), ("x6", 1),
+     ("y0", 0), ("y1", 3), ("y2", 5), ("y3", 8), ("y4", 10), ("y5", 12), ("y6", 13)]   -- pairs interleaved
+
+The guards of the seventy calls hold (`exBig_guarded`, kernel), so every theorem of this file
+applies to the history and to each of its prefixes. -/
+
+def exBigAnds : List Int := [16, 17, 21, 31, 53, 99, 193]
+def exBigOrs : List Int := [-1, 16, 20, 30, 52, 98, 192]
+
+def exBig : List UOp3 :=
+  ((List.range 7).map fun i => .op (.base (.declare s!"x{i}" none))) ++
+  ((List.range 7).map fun i => .op (.base (.declare s!"y{i}" none))) ++
+  [.configure true] ++
+  ((List.range 7).flatMap fun (i : Nat) =>
+    [.op (.base (.var s!"x{i}")), .op (.base (.incref (2 + (i : Int))))]) ++
+  ((List.range 7).flatMap fun (i : Nat) =>
+    [.op (.base (.var s!"y{i}")), .op (.base (.incref (9 + (i : Int))))]) ++
+  ((List.range 7).flatMap fun (i : Nat) =>
+    [.op (.base (.apply "and" (2 + (i : Int)) (some (9 + (i : Int))) none)),
+     .op (.base (.incref (exBigAnds.getD i 0))),
+     .op (.base (.apply "or" (exBigOrs.getD i 0) (some (exBigAnds.getD i 0)) none))] ++
+     (if i < 6 then [.op (.base (.incref (exBigOrs.getD (i + 1) 0)))] else []))
+
+set_option maxRecDepth 1000000 in
+theorem exBig_guarded : Ops3Guarded exBig St.init := by decide +kernel
+
+/-- the exception raised, if it is the internal signal -/
+def isSignal {α : Type} : Except Err α → Bool
+  | .error .needsReordering => true
+  | _ => false
+
+set_option maxRecDepth 1000000 in
+/-- in the state reached by the first 69 calls the body of the last call (`or` = `ite(u, 1, v)`) IS
+aborted by a reordering request — no harness trigger: `fireIn = none` in every reachable state -/
+theorem exBig_fires :
+    isSignal (iteRaw 192 1 193 { ⟪exBig.take 69⟫₃.m with ctx := true }).1 = true := by
+  decide +kernel
+
+/-- C09 / C01 on that very call: 69 calls were made, reordering is enabled, the operands 192 and
+193 are held; the theorem says the call returns normally — although its first attempt is aborted
+(`exBig_fires`) — and what it returns is the disjunction of the operands as they were, by name -/
+example : ∃ r m', runOp3 (.op (.base (.apply "or" 192 (some 193) none))) ⟪exBig.take 69⟫₃.m =
+      (.ok (.ref r), m') ∧
+    Good3 m' ⟪exBig.take 69⟫₃.ext ∧ m'.lastLen.isSome = ⟪exBig.take 69⟫₃.m.lastLen.isSome ∧
+    m'.tbl.Mem r ∧
+    (∀ σ, denN m'.tbl r σ =
+      Conn.or.eval (denN ⟪exBig.take 69⟫₃.m.tbl 192 σ) (denN ⟪exBig.take 69⟫₃.m.tbl 193 σ) false) ∧
+    (∀ w, HeldX ⟪exBig.take 69⟫₃.ext w →
+      m'.tbl.Mem w ∧ ∀ σ, denN m'.tbl w σ = denN ⟪exBig.take 69⟫₃.m.tbl w σ) :=
+  C01_apply_every_history_dyn (exBig.take 69) (by decide +kernel) (by decide +kernel) "or" .or
+    (by decide) (by decide) (by decide) (by decide) (by decide) 192 193
+    (Or.inr (by decide +kernel)) (Or.inr (by decide +kernel))
+
+/-- the theorems apply to it: the state after the automatic sifting is good -/
+example : Good3 ⟪exBig⟫₃.m ⟪exBig⟫₃.ext := reachable3_inv exBig exBig_guarded
 
 end DD
